@@ -82,12 +82,35 @@ Init_PutBusy ==
        /\ items = IF "item" \in sel THEN {[t |-> t, o |-> 5, r |-> "V1", d |-> "top", n |-> "a", date |-> 0] : t \in {CHOOSE x \in tex : TRUE}}
                                             \cup {[t |-> t, o |-> 6, r |-> "R", d |-> "d", n |-> "a", date |-> 1] : t \in {CHOOSE x \in tex : TRUE}}
                    ELSE {}
-       /\ orph = IF "orph" \in sel THEN {[t |-> t, o |-> 7] : t \in tex} ELSE {}
+       /\ orph = IF "orph" \in sel THEN {[t |-> t, o |-> 7] : t \in {CHOOSE x \in tex : TRUE}} ELSE {}
        /\ strays = IF "stray" \in sel THEN {[t |-> t, id |-> 1, r |-> "R", d |-> "d", n |-> "a", date |-> 0] : t \in tex} ELSE {}
        /\ junk = IF "junk" \in sel THEN {[t |-> t, id |-> 2, kind |-> "nopath"] : t \in tex} \cup {[t |-> t, id |-> 3, kind |-> "notinfo"] : t \in tex} ELSE {}
   /\ clock = 2 /\ purged = {} /\ out = [cmd |-> "init"]
 ArgsBusy == {[class |-> "entry", r |-> e.r, d |-> e.d, n |-> e.n] : e \in LiveBusy}
 OptsBusy == {o \in PutOptsSet : o.td = "none" /\ ~o.force /\ o.inter = "off" /\ (o.hf => o.hfenv)}
 Next_PutBusy == \E a \in ArgsBusy, o \in OptsBusy : Put(<<a>>, o) /\ Emit
+
+-----------------------------------------------------------------------------
+(* C06: trash-restore onto destinations that are occupied                          *)
+
+KindsFDLX == [o \in Objs |-> CASE o % 4 = 1 -> "file" [] o % 4 = 2 -> "dir" [] o % 4 = 3 -> "link" [] OTHER -> "dlink"]
+CfgsPlain == {[mounted |-> m, top |-> TopOn("V1", x), altfile |-> {}, xdg |-> "set", home |-> "set", kind |-> KindsFDLX] :
+                 m \in {{"R", "V1"}, {"R", "H", "V1"}}, x \in {"absent", "sticky"}}
+\* two trashed entries (kinds vary with the object id) whose destinations are free / occupied by any kind
+Init_Clobber ==
+  /\ cfg \in CfgsPlain
+  /\ dirs = BaseDirs
+  /\ \E pa \in 1 .. 4, pb \in 1 .. 4, oa \in 0 .. 4, ob \in {0, 6} :
+       /\ items = {[t |-> "home", o |-> 8 + pa, r |-> "R", d |-> "d", n |-> "a", date |-> 0],
+                   [t |-> IF cfg.top["V1"] = "sticky" THEN "t1:V1" ELSE "t2:V1", o |-> 4 + pb, r |-> "V1", d |-> "d", n |-> "b", date |-> 1]}
+                   \* 8+pa in 9..12, 4+pb in 5..8: kinds cycle through file, dir, link, dlink
+       /\ live = (IF oa = 0 THEN {} ELSE {[r |-> "R", d |-> "d", n |-> "a", o |-> oa]})
+                  \cup (IF ob = 0 THEN {} ELSE {[r |-> "V1", d |-> "d", n |-> "b", o |-> 13]})
+  /\ tex = {i.t : i \in items} /\ orph = {} /\ strays = {} /\ junk = {}
+  /\ clock = 2 /\ purged = {} /\ out = [cmd |-> "init"]
+Next_Clobber ==
+  \E sort \in {"date", "path"}, ow \in BOOLEAN,
+     reply \in {[k |-> "idx", idx |-> <<0>>], [k |-> "idx", idx |-> <<1>>], [k |-> "idx", idx |-> <<0, 1>>], [k |-> "idx", idx |-> <<1, 0>>]} :
+     Restore([k |-> "root"], "none", sort, reply, ow) /\ Emit
 
 =============================================================================
